@@ -380,7 +380,7 @@ def find_tests(fn, need_roots):
 def check_decisive_test(check, repo, modname, qual, need_roots, key, what,
                         args=None, self_attrs=None, exc="ValueError",
                         entry=None, max_depth=4, rule="D", pick="last",
-                        self_cls=None):
+                        self_cls=None, whole_names=()):
     """The decisive test of a verify-like function: an `if` whose test
     depends on `need_roots`; one of its edges always raises `exc` and never
     reaches a normal exit (the failing edge); every normal exit of `entry`
@@ -436,6 +436,27 @@ def check_decisive_test(check, repo, modname, qual, need_roots, key, what,
                  expected=what)
         return None
     ifn, rets, bad = verdict
+    # operands named in `whole_names` must be compared whole (no slice,
+    # index or call around them inside the decisive test)
+    for nm in whole_names:
+        hit = 0
+        for x in ast.walk(ifn.test):
+            if isinstance(x, ast.Name) and x.id == nm:
+                hit += 1
+                par = getattr(x, "_parent", None)
+                okp = True
+                while par is not None and par is not ifn:
+                    if not isinstance(par, (ast.Compare, ast.BoolOp, ast.UnaryOp)):
+                        okp = False
+                        break
+                    par = getattr(par, "_parent", None)
+                check.ob(rule, key + "|whole:" + nm, okp, mod.path, ifn.lineno,
+                         extracted="`%s` in the decisive test `%s`" % (nm, norm(ifn.test)),
+                         expected="`%s` takes part in the comparison as a whole value" % nm)
+        if not hit:
+            check.ob(rule, key + "|whole:" + nm, False, mod.path, ifn.lineno,
+                     extracted="`%s` does not occur in the decisive test `%s`" % (nm, norm(ifn.test)),
+                     expected="`%s` is what the decisive test compares" % nm)
     ok = bool(rets) and not bad
     check.ob(rule, key, ok, mod.path, ifn.lineno,
              extracted="decisive test `%s`: %d normal exits of %s, %d reachable "
